@@ -22,7 +22,7 @@ From Coq Require Import List Ascii String Bool PrimFloat.
 From Verif Require Import Base.Result Base.Str Base.Sexp Base.PyDict Base.Float Model.Tokenizer Model.Types Model.Domain
   Model.State Model.Trajectory Spec.Pddl Spec.State
   Proofs.C14_Text Proofs.C14_Spec Proofs.C14_Eq Proofs.C14_Main Proofs.C14_Serialize Proofs.C14_Examples
-  Proofs.C10_Export Proofs.C10_State Proofs.C10_Main Proofs.C10_Examples.
+  Proofs.C10_Export Proofs.C10_State Proofs.C10_Main Proofs.C10_Objects Proofs.C10_Examples.
 Import ListNotations.
 
 (* the full statement the property asks for: no restriction on the fluents' arguments *)
@@ -72,6 +72,15 @@ Theorem C10_roundtrip : forall dom num_text parse_num problem agents m t0 ts str
     (forall objs, problem = Some objs -> ob_objects O = objs).
 Proof. exact roundtrip. Qed.
 
+(* objects deduced from the first state: the observation's table names every object of the first state (the tree is the
+   one C10_export_parses / C10_roundtrip speak about) *)
+Theorem C10_roundtrip_deduced_objects : forall dom num_text parse_num agents strict t0 ts O,
+  state_ok (t_pre t0) = true -> parseable dom None (t_pre t0) ->
+  parse_trajectory dom parse_num None agents strict (traj_sexp num_text t0 ts) = Ok O ->
+  (forall a o, In a (den_facts (t_pre t0)) -> In o (snd a) -> dmem (ob_objects O) o = true) /\
+  (forall a o, In a (map fst (den_fluents (t_pre t0))) -> In o (snd a) -> dmem (ob_objects O) o = true).
+Proof. exact roundtrip_deduced_objects. Qed.
+
 (* D07: with a repeated fluent argument the parsed states are not the exported ones *)
 Theorem C10_roundtrip_refuted :
   exists text tree O c,
@@ -109,6 +118,7 @@ Proof. exact ex_roundtrip_hypotheses_joint. Qed.
 Print Assumptions C10_export_parses.
 Print Assumptions C10_state_roundtrip.
 Print Assumptions C10_roundtrip.
+Print Assumptions C10_roundtrip_deduced_objects.
 Print Assumptions C10_roundtrip_refuted.
 Print Assumptions C10_roundtrip_refuted_class.
 Print Assumptions C10_export_empty_refuted.
